@@ -278,6 +278,7 @@ func checkC05(p *Prog, res *Result, tier string) {
 	res.rule("C05-R4", "non-blocking sends on event channels exist only in the hub fan-out", 1)
 	res.rule("C05-R5", "one goroutine each for sequencer and hub; only the sequencer sends on the broadcast channel", 3)
 	res.rule("C05-R6", "the per-watch forwarder closes its output channel on every return", 1)
+	res.rule("C05-R10", "a forwarder start guarded by a comparison of the requested with the committed revision uses the strict form (requested > committed)", 1)
 	res.rule("C05-R9", "a slice handed over a channel (a broadcast batch, a streamed response) is not written by the sender afterwards: no reuse of a once-allocated buffer, no reset of a field buffer by re-slicing", 2)
 	res.rule("C05-R8", "event batches are shared between subscribers (and with the cache): no function of pkg/backend appends onto a re-slice of, or stores into, an event slice it received as a parameter or from a channel", 3)
 	res.rule("C05-R7", "a write that was applied but reported with unknown outcome is queued for repair (errors.Is test, before commit), otherwise it is readable but never delivered to watchers (C09-R1)", 3)
@@ -372,6 +373,61 @@ func checkC05(p *Prog, res *Result, tier string) {
 				res.ok("C05-R1", construct, p.pos(g.Pos()), "after a replay the live stream resumes right after the newest replayed cache entry")
 			} else {
 				res.bad("C05-R1", construct, p.pos(g.Pos()), "after replaying cached events the resume revision does not derive from the cache snapshot")
+			}
+		}
+	}
+
+	// R10: a forwarder start that is conditional on a comparison of the requested revision with the committed
+	// revision (the history-free start while the cache is empty) needs the strict form: at equality the event of the
+	// committed revision exists, is not in the (empty) cache and would never be delivered
+	{
+		reqRev := (*ssa.Parameter)(nil)
+		for _, prm := range w.watchImpl.Params {
+			if isUint64(prm.Type()) {
+				reqRev = prm
+			}
+		}
+		isCommitted := func(v ssa.Value) bool {
+			return derivesFrom(p, v, func(x ssa.Value) bool {
+				c, ok := x.(*ssa.Call)
+				return ok && (p.isCallToMethod(c, r.TSOGetRevision) || p.isCallToMethod(c, r.BGetCur))
+			})
+		}
+		n := 0
+		for _, ch := range starts {
+			g := ch.target.(*ssa.Go)
+			for _, cf := range ch.facts() {
+				if cf.X == nil || cf.Y == nil || reqRev == nil {
+					continue
+				}
+				x, y, op := ch.up(cf.X, cf.level), ch.up(cf.Y, cf.level), cf.Op
+				if resolve(y) == ssa.Value(reqRev) && isCommitted(x) {
+					x, y = y, x
+					op = map[token.Token]token.Token{token.LSS: token.GTR, token.GTR: token.LSS, token.LEQ: token.GEQ, token.GEQ: token.LEQ, token.EQL: token.EQL, token.NEQ: token.NEQ}[op]
+				}
+				if resolve(x) != ssa.Value(reqRev) || !isCommitted(y) {
+					continue
+				}
+				if !cf.Want {
+					op = map[token.Token]token.Token{token.LSS: token.GEQ, token.GTR: token.LEQ, token.LEQ: token.GTR, token.GEQ: token.LSS, token.EQL: token.NEQ, token.NEQ: token.EQL}[op]
+				}
+				// requested >= committed+1 is the strict form, too
+				if bo, ok := resolve(y).(*ssa.BinOp); ok && bo.Op == token.ADD && op == token.GEQ {
+					if k, ok := constInt(bo.Y); ok && k == 1 {
+						op = token.GTR
+					}
+				}
+				// op now reads: requested <op> committed holds at the start
+				n++
+				construct := fmt.Sprintf("%s: history-free forwarder start #%d needs requested revision > committed revision", funcName(w.watchImpl), n)
+				switch op {
+				case token.GTR:
+					res.ok("C05-R10", construct, p.pos(g.Pos()), "started only when the requested revision is strictly above the committed one")
+				case token.GEQ, token.EQL:
+					res.bad("C05-R10", construct, p.pos(g.Pos()), "a watch from exactly the committed revision is started without history: the event of that revision is in neither the cache nor the live stream and is never delivered")
+				default:
+					n--
+				}
 			}
 		}
 	}
